@@ -364,11 +364,16 @@ pub fn fixed_base(i: usize) -> Base {
     let garbage: &[u8] = if i % 3 == 0 { b"" } else { b"9\r\nGARBAGE!!\r\n0\r\n\r\n" };
     // (what counts as an incomplete frame does not depend on the version the peer announces, nor
     //  on what it says about the connection: a body cut short is cut short under `Connection: close` too)
-    let conn: Vec<(String, Vec<u8>)> = match i % 4 {
+    let mut conn: Vec<(String, Vec<u8>)> = match i % 4 {
         1 => vec![("Connection".to_owned(), b"close".to_vec())],
         2 => vec![("Connection".to_owned(), b"keep-alive".to_vec())],
         _ => vec![],
     };
+    // (a chunked message that also carries a Content-Length is still chunked - the end of ITS
+    //  framing is what has to arrive, whatever length the other field promises)
+    if framing == Framing::Chunked && i % 3 == 0 {
+        conn.push(("Content-Length".to_owned(), payload.len().to_string().into_bytes()));
+    }
     let b = build_response(["HTTP/1.1 200 OK", "HTTP/1.0 200 OK", "HTTP/1.1 200 OK", "HTTP/1.1 200 OK"][(i / 3) % 4], &conn, framing, &payload, &sizes, &styles, garbage);
     Base { framing, payload, wire: b.wire, head_len: b.head_len, frame_end: b.frame_end }
 }
@@ -522,11 +527,14 @@ fn random_base(rng: &mut Rng, max: usize) -> Base {
     let sizes = if framing == Framing::Chunked { respgen::random_chunking(rng, len) } else { vec![] };
     let styles = respgen::random_styles(rng);
     let garbage: &[u8] = if rng.bool() { b"" } else { b"3\r\nxyz\r\n0\r\n\r\n" };
-    let conn: Vec<(String, Vec<u8>)> = match rng.below(4) {
+    let mut conn: Vec<(String, Vec<u8>)> = match rng.below(4) {
         0 => vec![("Connection".to_owned(), b"close".to_vec())],
         1 => vec![("connection".to_owned(), b"Keep-Alive".to_vec())],
         _ => vec![],
     };
+    if framing == Framing::Chunked && rng.chance(1, 4) {
+        conn.push(("Content-Length".to_owned(), payload.len().to_string().into_bytes()));
+    }
     let b = build_response(*rng.pick(&["HTTP/1.1 200 OK", "HTTP/1.0 200 OK", "HTTP/1.1 200 OK", "HTTP/1.1 404 Not Found"]), &conn, framing, &payload, &sizes, &styles, garbage);
     Base { framing, payload, wire: b.wire, head_len: b.head_len, frame_end: b.frame_end }
 }
